@@ -216,9 +216,29 @@ def run(ctx, rep):
         r = simp(p.env.get('_0'))
         vs = sorted({ty for o_, ty in tag_facts(p)})
         if p.exit == 'return' and r and r[0] == 'agg' and r[2] == 'Ok' and len(vs) == 1:
-            names = [c[1] for c in p.calls]
+            # (what a debug assertion evaluates for its condition is not what the builtin answers with)
+            names = [c[1] for c in p.calls if not (isinstance(c[4], dict) and psc.macro_of(c[4].get('span') or {}) in ('debug_assert', 'debug_assert_eq', 'debug_assert_ne'))]
             src = ' '.join(names)
-            if any(any(n.endswith(b_) or b_ in n for b_ in BYTE_LEN) for n in names):
+            # on a path where the text was found to be all ASCII (is_ascii() came out true) one byte is one character
+            from rules.shared import truth as _truth
+            ascii_only = any(c_[0][0] == 'switch' and isinstance(c_[0][1], tuple) and c_[0][1][0] == 'call' and c_[0][1][1].endswith('::is_ascii') and _truth(c_)
+                             for c_ in p.constraints)
+            # what the answer is computed from, when it can be read off the returned value: int(<count>)
+            rv_unit = None
+            for x_ in subtrees(r):
+                if x_[0] == 'call' and x_[1] in ('object::Object::int', 'object::Object::try_int') and x_[2]:
+                    a_ = uncast(deref(p.env, x_[2][0]))
+                    if a_[0] == 'call' and a_[1].endswith('::count') and a_[2] and 'chars' in str(a_[2][0]):
+                        rv_unit = 'characters'
+                    elif a_[0] == 'call' and a_[1].endswith(('str>::len', 'String::len')):
+                        rv_unit = 'characters' if ascii_only else 'bytes'
+                    elif a_[0] == 'call' and a_[1].endswith(('Vec::<T, A>::len', '[T]>::len')):
+                        rv_unit = 'elements'
+            if rv_unit is not None:
+                unit = rv_unit
+            elif ascii_only and any(n.endswith(('str>::len', 'String::len')) for n in names):
+                unit = 'characters'
+            elif any(any(n.endswith(b_) or b_ in n for b_ in BYTE_LEN) for n in names):
                 unit = 'bytes'
             elif any(n.endswith('::chars') for n in names) and (any(n.endswith('::count') for n in names) or any(n.endswith(('Iterator>::next', 'Iterator::next')) for n in names)):
                 unit = 'characters'     # chars().count(), or a loop that takes one step per character
